@@ -191,6 +191,7 @@ type sRun struct {
 	tickMode bool
 	epochT   int64
 	epochBad bool
+	hung     bool // a call did not return: Engine.Close would block on the stream's mutex
 	trace    []sObs
 }
 
@@ -224,7 +225,9 @@ func (r *sRun) close() {
 			_ = s.Close(context.Background())
 		}
 	}
-	r.engine.Close()
+	if !r.hung {
+		r.engine.Close()
+	}
 }
 
 func (r *sRun) tick() {
@@ -527,7 +530,17 @@ func (r *sRun) step(st *sStep, record bool) (string, int) {
 			cancel()
 			c = cc
 		}
-		o = r.observe(s, s.TryNext(c))
+		// a TryNext that never returns must not hang the check
+		okc := make(chan bool, 1)
+		go func() { okc <- s.TryNext(c) }()
+		select {
+		case ok := <-okc:
+			o = r.observe(s, ok)
+		case <-time.After(5 * time.Second):
+			o = sObs{res: "HANG"}
+			r.streams[st.s] = nil // its mutex is held forever: never touch it again
+			r.hung = true
+		}
 		o.kind, o.stream = st.kind, st.s
 		if o.res == "EV" {
 			out = strconv.Itoa(o.rank)
@@ -980,12 +993,15 @@ func judgeStreamTrace(sc *sScript, trace []sObs, hist []histEv) [][3]string {
 				if o[0] != "at" {
 					continue
 				}
+				// a start time: every event at or after it is expected (if
+				// retention has already discarded some of them the stream must
+				// fail with ErrLostOplogPosition); a time after the newest event
+				// is "from now on"
 				p := int(atoi64(o[1]))
-				if p < ntrim {
-					p = ntrim
-				}
 				if p < histLen {
 					s.pos, s.anchored = p, p > ntrim
+				} else {
+					s.pos, s.anchored = histLen, ntrim < histLen
 				}
 			}
 			if s.open != resolvable {
@@ -1096,6 +1112,9 @@ func judgeStreamTrace(sc *sScript, trace []sObs, hist []histEv) [][3]string {
 				s.ended = "ERR"
 			case "CLOSED":
 				fail("C09:closed-unexpectedly", fmt.Sprintf("stream %d reports closed without Close, invalidate or error", st.s), i)
+				s.ended = "CLOSE"
+			case "HANG":
+				fail("C09:stall", fmt.Sprintf("stream %d: TryNext did not return within 5 s", st.s), i)
 				s.ended = "CLOSE"
 			default:
 				fail("C09:bad-observation", ob.res, i)
